@@ -24,6 +24,9 @@ pub struct Model {
     pub key_max: BTreeMap<Vec<u8>, u64>,
     /// Behaviours the properties do not constrain, as observed (never violations).
     pub observations: Vec<String>,
+    /// Concurrent histories: take reported timestamps as given (every call is treated
+    /// as explicitly timestamped); the C12 clock constraints are not applied.
+    pub lenient_ts: bool,
 }
 
 pub const MAX_KEY: usize = 100 * 1024;
@@ -86,6 +89,7 @@ impl Model {
             max_seen: 0,
             key_max: BTreeMap::new(),
             observations: Vec::new(),
+            lenient_ts: false,
         }
     }
 
@@ -133,6 +137,9 @@ impl Model {
     fn auto_ts(&mut self, key: &[u8], ts_used: u64, floor: u64) -> Result<u64, String> {
         if ts_used == 0 {
             return Err("MACHINERY: the call resolved an automatic timestamp but none was reported by the hook".into());
+        }
+        if self.lenient_ts {
+            return Ok(ts_used);
         }
         if let Some(cur) = self.map.get(key) {
             if cur.ts != u64::MAX && ts_used <= cur.ts {
